@@ -24,7 +24,7 @@ func init() {
 			"proceeds to rate limiting. The single exception is the FORMERR answer for a malformed ECS option, which " +
 			"C05 demands and which is written before any access decision.",
 		NotCovered: "what the urlfilter engines behind IsBlockedHost / blockedHostsEng match; effects inside third-party libraries reached from the access decision.",
-		Rules: map[string]string{"C10-R16": "no call in package dnsserver passes same-typed arguments crossed (local and remote address of a connection, by the names of the getters that produced them)", "C10-R17": "builder.initAccess creates and assigns the global access manager on every successful path, empty lists included (a nil *access.Global wrapped in the service's interface field panics on the first request)", "C10-R14": "conversion loops of backendpb and filecachepb leave no element out silently (a skipped element has been reported or failed a conversion)", "C10-R15": "GeoIP data is looked up and cached under one read lock, so a refresh cannot leave a location of the previous database in the cache (shared with C05-R7)", "C10-R13": "newRequestInfo always stores the finder's answer; methods of the shared access objects do not write to their receiver", "C10-RC": "class rules (error chains, shadowed results, character classes, crossed arguments, pool constructors, array pools, loop completeness, loop-carried buffers, replacing setters, complete clones, Grow arithmetic, pooled-buffer escape, sorted searches, fresh decode targets, per-iteration objects, whole-message copies, codec guards) over the packages this property rests on", "C10-R12": "agdnet.NormalizeDomain is ToLower(TrimSuffix(name, \".\")); hand-written ASCII classes use inclusive boundaries", "C10-R11": "early (default) returns of the profile converters are guarded only by nil / Enabled tests of the input, never by its contents", "C10-R10": "codecs return a nil sub-message only for a nil input; access.Global keeps the whole configured subnet list and IsBlockedIP is a membership test on it",
+		Rules: map[string]string{"C10-R18": "geoip.File.Refresh clears both location caches after it has installed the new databases (shared with C05-R10)", "C10-R16": "no call in package dnsserver passes same-typed arguments crossed (local and remote address of a connection, by the names of the getters that produced them)", "C10-R17": "builder.initAccess creates and assigns the global access manager on every successful path, empty lists included (a nil *access.Global wrapped in the service's interface field panics on the first request)", "C10-R14": "conversion loops of backendpb and filecachepb leave no element out silently (a skipped element has been reported or failed a conversion)", "C10-R15": "GeoIP data is looked up and cached under one read lock, so a refresh cannot leave a location of the previous database in the cache (shared with C05-R7)", "C10-R13": "newRequestInfo always stores the finder's answer; methods of the shared access objects do not write to their receiver", "C10-RC": "class rules (error chains, shadowed results, character classes, crossed arguments, pool constructors, array pools, loop completeness, loop-carried buffers, replacing setters, complete clones, Grow arithmetic, pooled-buffer escape, sorted searches, fresh decode targets, per-iteration objects, whole-message copies, codec guards) over the packages this property rests on", "C10-R12": "agdnet.NormalizeDomain is ToLower(TrimSuffix(name, \".\")); hand-written ASCII classes use inclusive boundaries", "C10-R11": "early (default) returns of the profile converters are guarded only by nil / Enabled tests of the input, never by its contents", "C10-R10": "codecs return a nil sub-message only for a nil input; access.Global keeps the whole configured subnet list and IsBlockedIP is a membership test on it",
 			"C10-R1": "decision tables of isBlockedByNets, matchASNs, IsBlocked, isBlockedByAccess",
 			"C10-R2": "Wrap closure: location stored before the decision; blocked edge silent; other edge proceeds",
 			"C10-R4": "question names are normalised before they are matched against access rules",
@@ -35,6 +35,9 @@ func init() {
 
 func runC10(c *an.Ctx) {
 	classSweep(c, "C10")
+	// ---- R18: a GeoIP refresh empties the per-network location cache, so ASN rules are applied to the new data (shared with C05-R10)
+	c.Floor("C10-R18", 2)
+	c.Borrow("C10-R18", runC05, func(o an.Obligation) bool { return o.Rule == "C05-R10" })
 	// ---- R16: the transports hand the client's address to the pipeline as the remote address (crossed local /
 	// remote arguments make every access rule judge the server's own address); R17: the global access manager (and
 	// every other builder component handed on as an interface) is assigned on every successful path of its initialiser
